@@ -40,6 +40,7 @@ package c38
 //     of them.
 
 import (
+	"encoding/json"
 	"fmt"
 	"os"
 	"path/filepath"
@@ -119,6 +120,48 @@ var (
 	nKeys   = map[string]int{}
 )
 
+var (
+	recOnce sync.Once
+	rec     map[string]map[string]bool
+)
+
+// recordedKeys reads the optional "keys" lists of the C38 entries of the
+// known-findings file (VERIF_KNOWN, default <root>/known_findings.json):
+// signature -> set of keys recorded for it.
+func recordedKeys() map[string]map[string]bool {
+	recOnce.Do(func() {
+		rec = map[string]map[string]bool{}
+		p := os.Getenv("VERIF_KNOWN")
+		if p == "" {
+			p = filepath.Join(vkit.Root(), "known_findings.json")
+		}
+		b, err := os.ReadFile(p)
+		if err != nil {
+			return
+		}
+		var kf struct {
+			Findings []struct {
+				Property string   `json:"property"`
+				Sig      string   `json:"sig"`
+				Keys     []string `json:"keys"`
+			} `json:"findings"`
+		}
+		if json.Unmarshal(b, &kf) != nil {
+			return
+		}
+		for _, f := range kf.Findings {
+			if f.Property == "C38" && len(f.Keys) > 0 {
+				m := map[string]bool{}
+				for _, k := range f.Keys {
+					m[k] = true
+				}
+				rec[f.Sig] = m
+			}
+		}
+	})
+	return rec
+}
+
 func resolved(text, key string) bool { return text != "" && text != key }
 
 func keyOracle(c Case) vkit.Outcome {
@@ -156,6 +199,11 @@ func keyOracle(c Case) vkit.Outcome {
 		out.Labels = append(out.Labels, "key resolved through alternate prefix opt.")
 	}
 	fail := func(sig, obs, exp string) {
+		// a recorded finding lists its keys; the same failure for a key that
+		// is not on the list is a new defect and gets its own signature
+		if ks, ok := recordedKeys()[sig]; ok && !ks[c.Key] {
+			sig += " (key not in the recorded list)"
+		}
 		out.Fail = &vkit.Failure{Sig: sig, Observed: obs, Expected: exp}
 		mu.Lock()
 		failing[fmt.Sprintf("%s | %s | %s", sig, c.Key, c.Site)] = true
